@@ -1,7 +1,7 @@
 #!/bin/sh
-# usage: tools_seedtest.sh <patch.diff> <ID> [tier]   -- apply a seeded change to /repo, run the check, undo
+# usage: tools_seedtest.sh <patch.diff> <ID> [tier]   -- apply a seeded change to /repo, run the check, undo (always)
 P=$1; ID=$2; TIER=${3:-quick}
+trap 'git -C /repo checkout -- . ' EXIT INT TERM
 cd /repo && git apply "$P" || { echo "APPLY FAILED"; exit 9; }
-cd /verif && ./check $ID --tier $TIER --no-evidence; rc=$?
-git -C /repo checkout -- . 
+cd /verif && timeout ${SEED_TIMEOUT:-600} ./check $ID --tier $TIER --no-evidence; rc=$?
 echo "seedtest $P $ID -> exit $rc"
